@@ -130,6 +130,7 @@ type Ctx struct {
 	specDepth     int    // >0: evaluating spec-level code (inside quantifiers): no defs/assumes/obligations
 	specErr       string // set when spec-level evaluation needed something impure
 	pendingShift  int
+	noWF          bool
 	gvTypes       map[string]string
 	trackSmall    map[string]bool // tracked labels with Int sort that a small-model retry may bound
 	declared      map[string]bool
@@ -144,6 +145,13 @@ type Frame struct {
 	contract *Contract
 	specVars map[string]TV
 	deferred []func(*State, string)
+	allocs   []allocRec // objects allocated by this frame's own instructions
+}
+
+type allocRec struct {
+	ref   string
+	t     types.Type
+	reach string
 }
 
 func NewCtx(w *World, sp *Specs, mods *ModAnalysis, fn *ssa.Function, families map[string]bool) *Ctx {
@@ -181,6 +189,13 @@ func (c *Ctx) define(base, sort, term string) string {
 func (c *Ctx) defineAlways(base, sort, term string) string {
 	if c.specDepth > 0 {
 		return term
+	}
+	if strings.HasPrefix(sort, "(Array") && strings.Contains(term, "(ite ") {
+		// arrays appear inside quantifier patterns, where `ite` is not allowed: name them by a constant
+		n := c.fresh(base)
+		c.lines = append(c.lines, fmt.Sprintf("(declare-const %s %s)", n, sort))
+		c.lines = append(c.lines, fmt.Sprintf("(assert (= %s %s))", n, term))
+		return n
 	}
 	n := c.fresh(base)
 	c.lines = append(c.lines, fmt.Sprintf("(define-fun %s () %s %s)", n, sort, term))
@@ -222,8 +237,10 @@ func (c *Ctx) oblige(family, kind string, pos token.Pos, reach, goal, detail str
 	if c.specDepth > 0 {
 		return
 	}
-	if !c.wants(family) {
-		// still assume the goal afterwards (execution continues only if it held)
+	// loop invariants and callee preconditions are assumed afterwards, so they are always obligations,
+	// whatever families were selected
+	always := strings.HasPrefix(kind, "INV.") || strings.HasPrefix(kind, "CALLPRE.")
+	if !always && !c.wants(family) {
 		return
 	}
 	if goal == "true" {
@@ -286,6 +303,9 @@ func (c *Ctx) arraySortDecl(name string) string {
 	}
 	if strings.HasPrefix(name, "MH_") || strings.HasPrefix(name, "MV_") {
 		return es // full sort stored
+	}
+	if strings.HasPrefix(name, "ML_") {
+		return "(Array Int Int)"
 	}
 	return "(Array Int " + es + ")"
 }
@@ -548,3 +568,19 @@ func smtInt(v int64) string {
 }
 
 func sortStrings(s []string) []string { sort.Strings(s); return s }
+
+// constArray: the array that maps every index to the zero value of the element sort. `as const` needs a
+// literal value (cvc5); for uninterpreted zeros a fresh array with a quantified definition is used.
+func (c *Ctx) constArray(elemSort, zero string) string {
+	if zero == "0" || zero == "false" || zero == "true" {
+		return fmt.Sprintf("((as const (Array Int %s)) %s)", elemSort, zero)
+	}
+	if c.specDepth > 0 {
+		return fmt.Sprintf("((as const (Array Int %s)) %s)", elemSort, zero)
+	}
+	n := c.fresh("zeros")
+	c.lines = append(c.lines, fmt.Sprintf("(declare-const %s (Array Int %s))", n, elemSort))
+	k := c.fresh("k")
+	c.lines = append(c.lines, fmt.Sprintf("(assert (forall ((%s Int)) (! (= (select %s %s) %s) :pattern ((select %s %s)))))", k, n, k, zero, n, k))
+	return n
+}
